@@ -44,7 +44,7 @@ CHECKS["C02"] = dict(
          "theorems; the specification's meaning is first cross-checked against RDKit's SMILES semantics with the descriptor written as a dummy atom, "
          "then every text is concretised (element pools by valence, ids, every float syntax, lists) and the real SmilesToken is compared field by "
          "field (symbol, id, weight, list, atom, order, fragment, atom list). Element level (terminals, unit lists, distribution family and parameters, "
-         "element kinds and order) is compared for the instance library and seeded archetypes in four whitespace / number-format variants.",
+         "element kinds and order) is compared for the instance library and seeded archetypes in four whitespace / number-format variants. System level: SystemScan.tla gives the grammar of a system text (molecules closed by mixture specifiers in four number syntaxes, a descriptor whose weight ends in '.|' inside its brackets, blanks) and the character-level scanner (a specifier starts at the first '.|' outside square brackets); TLC checks over every sequence of pieces up to a length that the scanner recovers exactly the denotation, and every sequence is replayed into System(text) and Molecule(text): component count, written mixture values, component tokens, acceptance of determined well-formed texts.",
     design_ref="DESIGN.md 4/C02",
     note="Trusted: TLC, RDKit (reference SMILES semantics), the independent printer. Bound: all token texts up to 9 (quick) / 11 (thorough) symbols.",
     technique="TLA+ writer/scanner spec enumerated exhaustively by TLC; every enumerated behaviour replayed into the parser and compared with the spec state",
